@@ -235,6 +235,14 @@ def solve_vc(pc, formula, timeout_ms, symbols):
         return "unsat", None, time.time() - t0, "z3"
     if r == z3.sat:
         return "sat", model_of(s), time.time() - t0, "z3"
+    # cheap first: numeric evaluation of the whole VC at a few sampled real inputs (standard interpretation of exp/log/...)
+    try:
+        from .refute import refute_numerically
+        md = refute_numerically(pc, formula, symbols)
+        if md is not None:
+            return "sat", md, time.time() - t0, "numeric-sampling"
+    except Exception:
+        pass
     try:
         s2 = z3.Tactic("qfnia").solver()
         s2.set("timeout", timeout_ms)
@@ -261,6 +269,11 @@ def solve_vc(pc, formula, timeout_ms, symbols):
         md = refute_small(pc, formula, sizes, symbols, model_value, aux=symbols.get("__aux_sizes__", {}))
         if md is not None:
             return "sat", md, time.time() - t0, "z3-instantiated"
+    else:
+        from .refute import refute_by_sampling
+        md = refute_by_sampling(pc, formula, symbols, model_value)
+        if md is not None:
+            return "sat", md, time.time() - t0, "z3-sampled"
     return "unknown", None, time.time() - t0, "z3+qfnia+cvc5"
 
 
